@@ -146,22 +146,11 @@ impl SendChannelReliable {
         &&& self.unacked_messages@.len() <= 0x100_0000_0000
         &&& self.memory_usage_bytes <= 0x200_0000_0000
     }
-}
 
-impl RenetClient {
-    /// what get_packets_to_send needs of the sending side: every entry of the send order names an existing channel of that kind
-    /// (U14 builds it so), at most 256 entries (ids are u8 and distinct), counters far enough from 2^62 (history assumption)
-    pub open spec fn send_ready(&self) -> bool {
-        &&& self.channel_send_order@.len() <= 256
-        &&& forall|i: int| 0 <= i < self.channel_send_order@.len() ==> match #[trigger] self.channel_send_order@[i] {
-                ChannelOrder::Reliable(c) => self.send_reliable_channels@.contains_key(c),
-                ChannelOrder::Unreliable(c) => self.send_unreliable_channels@.contains_key(c),
-            }
-        &&& self.packet_sequence < 0x2000_0000_0000_0000
-        &&& (!self.disconnected() ==> {
-                &&& forall|c: u8| #[trigger] self.send_reliable_channels@.contains_key(c) ==> self.send_reliable_channels@[c].send_ok()
-                &&& forall|c: u8| #[trigger] self.send_unreliable_channels@.contains_key(c) ==> self.send_unreliable_channels@[c].send_ok()
-            })
+    /// no transmission timestamp lies in the future (history assumption: time only moves forward between calls)
+    pub open spec fn times_ok(&self, now: Duration) -> bool {
+        forall|id: u64| #[trigger] self.unacked_messages@.contains_key(id) ==> self.unacked_messages@[id].sent_not_after(now)
     }
 }
+
 // ---- end shared client send specs ----
